@@ -34,3 +34,36 @@ def transfer(log):
         elif k == "end":
             out.append({"ev": "end", "quiescent": e["quiescent"]})
     return out
+
+
+def lifecycle(log):
+    out = [{"ev": "init"}]
+    started = set()
+    pk = {}
+    for e in log:
+        if e["k"] == "pkt":
+            pk.setdefault(e["dg"], []).append(e)
+    for e in log:
+        k = e["k"]
+        if k == "api" and e["call"] == "connect":
+            out.append({"ev": "start", "ep": "c", "t": e["t"]})
+            started.add("c")
+        elif k == "rx" and e["ep"] == "s" and "s" not in started:
+            started.add("s")
+            out.append({"ev": "start", "ep": "s", "t": e["t"]})
+        elif k == "api" and e["call"] == "close" and not e["raised"]:
+            out.append({"ev": "apiclose", "ep": e["ep"]})
+        elif k == "tx":
+            frames = sorted({f["t"] for d in e["dgs"] for p in pk.get(d["id"], []) for f in p.get("frames", [])})
+            opaque = sum(1 for d in e["dgs"] for p in pk.get(d["id"], []) if not p["ok"])
+            out.append({"ev": "tx", "ep": e["ep"], "t": e["t"], "ndg": len(e["dgs"]), "ftypes": frames, "unopened": opaque,
+                        "st0": e["st0"]["state"], "st": e["st"]["state"], "pto0": e["st0"]["pto"], "pto1": e["st"]["pto"]})
+        elif k == "gt":
+            out.append({"ev": "gt", "ep": e["ep"], "t": e["t"], "value": e["value"], "idle": e["idle"]})
+        elif k == "timer":
+            out.append({"ev": "timer", "ep": e["ep"], "t": e["t"], "due": e["due"]})
+        elif k == "ev":
+            out.append({"ev": "event", "ep": e["ep"], "cls": e["cls"]})
+        elif k == "end":
+            out.append({"ev": "end"})
+    return out
